@@ -858,3 +858,20 @@ Example ob_no_duplicates_witness :
   map (fun r => map sb_tok (rs_subs r))
       (st_res (fst (ob_run (mk_pr 1 5 1) (ob_init [(0, 2)]) ops))) = [[[163]; [162]]].
 Proof. vm_compute. reflexivity. Qed.
+
+(* C11: while a notification is held back the pending flags persist - in every reachable state a
+   subscription flagged dirty implies its resource is partiallydirty, and a dirty or partiallydirty
+   resource implies the context's observe_pending, so the next coap_check_notify looks at it again;
+   the Observe counter stays a 24-bit number *)
+Theorem ob_pending_flags_persist : forall p modes ops st,
+  st = fst (ob_run p (ob_init modes) ops) ->
+  (forall r x, In r (st_res st) -> In x (rs_subs r) -> sb_dirty x = true -> rs_pdirty r = true) /\
+  (forall r, In r (st_res st) -> rs_dirty r = true \/ rs_pdirty r = true -> st_pending st = true) /\
+  (forall r, In r (st_res st) -> 0 <= rs_obs r < 16777216).
+Proof.
+  intros p modes ops st Hst. pose proof (ob_run_ok p ops _ (ob_init_ok modes)) as [_ [B C]].
+  rewrite <- Hst in B, C. rewrite Forall_forall in B. split; [|split].
+  - intros r x Hr Hx Hd. destruct (B r Hr) as [_ [_ D]]. eapply D; eassumption.
+  - exact C.
+  - intros r Hr. apply (B r Hr).
+Qed.
